@@ -53,51 +53,75 @@ theorem bind_val_err {α β : Type} {m : R α} {f : α → R β} {e : Stop} :
   | ok a => simp [(bind_ok (f := f) h).1]
   | error e' => simp [(bind_err (f := f) h).1]
 
-/-- Partial-correctness-with-fail-stop triple: the operation either returns a
-value satisfying `P` (together with its trace) or stops with `abort`; it never
-answers `oob` / `nullDeref`. -/
+/-- Partial-correctness-with-fail-stop triple: every hash function call the
+operation made (also when it stops) was made with a table size `m ≥ 1`, and the
+operation either returns a value satisfying `P` (together with its trace) or
+stops with `abort`; it never answers `oob` / `nullDeref`. -/
 def R.Spec {α : Type} (m : R α) (P : Tr → α → Prop) : Prop :=
+  (∀ c ∈ m.tr.calls, 1 ≤ c.m) ∧
   match m.val with
   | .ok a => P m.tr a
   | .error e => e = .abort
 
-theorem R.Spec.pure {α : Type} {a : α} {P : Tr → α → Prop} (h : P {} a) : (Pure.pure a : R α).Spec P := h
+theorem R.Spec.pure {α : Type} {a : α} {P : Tr → α → Prop} (h : P {} a) : (Pure.pure a : R α).Spec P :=
+  ⟨by simp, h⟩
+
+/-- an operation that returned `a` with trace `tr` -/
+theorem R.Spec.mk_ok {α : Type} {tr : Tr} {a : α} {P : Tr → α → Prop} (hpos : ∀ c ∈ tr.calls, 1 ≤ c.m)
+    (h : P tr a) : ({ tr := tr, val := .ok a } : R α).Spec P := ⟨hpos, h⟩
+
+theorem R.Spec.pos {α : Type} {m : R α} {P : Tr → α → Prop} (hm : m.Spec P) : ∀ c ∈ m.tr.calls, 1 ≤ c.m := hm.1
 
 theorem R.Spec.bind {α β : Type} {m : R α} {f : α → R β} {P : Tr → α → Prop} {Q : Tr → β → Prop}
     (hm : m.Spec P) (hf : ∀ tr a, P tr a → (f a).Spec (fun tr' b => Q (tr.append tr') b)) :
     (m >>= f).Spec Q := by
-  unfold R.Spec at hm ⊢
+  obtain ⟨hpos, hm⟩ := hm
+  unfold R.Spec
   cases h : m.val with
   | ok a =>
     rw [h] at hm
     have hb := bind_ok (f := f) h
-    have := hf _ _ hm
-    unfold R.Spec at this
+    obtain ⟨hpos2, this⟩ := hf _ _ hm
     rw [hb.1, hb.2]
-    cases h2 : (f a).val with
-    | ok b => rw [h2] at this; exact this
-    | error e => rw [h2] at this; exact this
+    refine ⟨?_, ?_⟩
+    · intro c hc
+      simp only [Tr.append_calls, List.mem_append] at hc
+      rcases hc with hc | hc
+      · exact hpos c hc
+      · exact hpos2 c hc
+    · cases h2 : (f a).val with
+      | ok b => rw [h2] at this; exact this
+      | error e => rw [h2] at this; exact this
   | error e =>
     rw [h] at hm
-    rw [(bind_err (f := f) h).1]; exact hm
+    rw [(bind_err (f := f) h).1, (bind_err (f := f) h).2]; exact ⟨hpos, hm⟩
 
 theorem R.Spec.mono {α : Type} {m : R α} {P Q : Tr → α → Prop} (hm : m.Spec P) (h : ∀ tr a, P tr a → Q tr a) :
     m.Spec Q := by
-  unfold R.Spec at hm ⊢
+  obtain ⟨hpos, hm⟩ := hm
+  refine ⟨hpos, ?_⟩
   cases hv : m.val with
   | ok a => rw [hv] at hm; exact h _ _ hm
   | error e => rw [hv] at hm; exact hm
 
 theorem R.Spec.of_ok {α : Type} {m : R α} {P : Tr → α → Prop} (hm : m.Spec P) {a : α} (h : m.val = .ok a) :
     P m.tr a := by
-  unfold R.Spec at hm; rw [h] at hm; exact hm
+  have := hm.2; rw [h] at this; exact this
 
 theorem R.Spec.not_fault {α : Type} {m : R α} {P : Tr → α → Prop} (hm : m.Spec P) :
     m.val ≠ .error .oob ∧ m.val ≠ .error .nullDeref := by
-  unfold R.Spec at hm
+  have hm := hm.2
   cases hv : m.val with
   | ok a => simp
   | error e => rw [hv] at hm; subst hm; simp
+
+theorem R.Spec.with_val {α : Type} {m : R α} {P : Tr → α → Prop} (hm : m.Spec P) :
+    m.Spec (fun tr a => P tr a ∧ m.val = .ok a) := by
+  obtain ⟨hpos, hm⟩ := hm
+  refine ⟨hpos, ?_⟩
+  cases h : m.val with
+  | ok a => rw [h] at hm; exact ⟨hm, rfl⟩
+  | error e => rw [h] at hm; exact hm
 
 /-! ### fail-stop bookkeeping: a stop with `abort` happens exactly when the last
 logged hash call was out of range; all earlier calls were in range -/
